@@ -114,7 +114,34 @@ def substitute(node, old, new):
 @st.composite
 def st_law(draw):
     ctx = gen.Ctx()
-    law = draw(st.sampled_from(LAWS))
+    law = draw(st.sampled_from(LAWS + ['concat_split_dupkeys']))
+    if law == 'concat_split_dupkeys':
+        # concatenate(S, T) == concatenate(*S.split(k), T) also where S holds one key twice (an over-sampling
+        # selection): whether the concatenation's keys() refuses the repeated key cannot depend on where the
+        # boundaries between the members fall
+        S0 = draw(gen.st_source(ctx, kind='dict', min_n=2))
+        n0 = len(S0['keys'])
+        idx = draw(st.lists(st.integers(0, n0 - 1), min_size=2, max_size=n0 + 2))
+        if draw(st.booleans()):
+            idx = idx + [idx[0]]
+        S = {'op': 'slice', 'form': {'k': 'ilist', 'idx': idx, 'as': 'list'}, 'in': S0}
+        T = draw(gen.st_source(ctx, kind='dict'))
+        k = draw(st.integers(1, len(idx)))
+        parts = [{'op': 'shard', 'k': k, 'i': i, 'via': 'split', 'in': S} for i in range(k)]
+        return {'law': law, 'strict_keys': True, 'trivial': k == 1 or len(set(idx)) == len(idx),
+                'lhs': {'op': 'concat', 'how': 'function', 'ins': parts + [T]},
+                'rhs': {'op': 'concat', 'how': 'function', 'ins': [S, T]}}
+    if law == 'map_concat' and draw(st.integers(0, 2)) == 0:
+        # the mapped function FAILS for some examples: a failure is part of what the function does and distributes
+        # over concatenation like a value (same exception type for the same example, by iteration, index and key)
+        S = draw(gen.st_source(ctx, kind='dict', min_n=1))
+        T = draw(gen.st_source(ctx, kind='dict'))
+        mm = draw(st.integers(2, 3))
+        b = {'op': 'boom', 'm': mm, 'r': draw(st.integers(0, mm - 1)),
+             'exc': draw(st.sampled_from(['KeyError', 'ValueError', 'VErrA', 'IndexError'])), 'fn': draw(st.integers(0, 3))}
+        return {'law': 'map_concat_failing', 'strict_errors': True, 'trivial': False,
+                'lhs': dict(b, **{'in': {'op': 'concat', 'how': 'method', 'ins': [S, T]}}),
+                'rhs': {'op': 'concat', 'how': 'method', 'ins': [dict(b, **{'in': S}), dict(b, **{'in': T})]}}
     plain = law == 'filter_select'
     if plain:
         S = draw(gen.st_source(ctx))
@@ -275,7 +302,17 @@ def check(case):
                                                         f'{progs.show(case["rhs"])}\nepoch {e}: lhs {a}\n         rhs {b}')
         return
     try:
-        compare(record(dl), record(dr), case['law'])
+        ra, rb = record(dl), record(dr)
+        if case.get('strict_keys') and (ra['keys'] is None) != (rb['keys'] is None):
+            raise Violation(f'{case["law"]}|keys-refusal',
+                            f'keys(): lhs {"refuses" if ra["keys"] is None else ra["keys"]}, '
+                            f'rhs {"refuses" if rb["keys"] is None else rb["keys"]}')
+        compare(ra, rb, case['law'])
+        if case.get('strict_errors') and ra['keys'] is not None and rb['keys'] is not None:
+            for k in ra['lookup']:
+                x, y = ra['lookup'][k], rb['lookup'].get(k)
+                if y is not None and x[0] == y[0] == 'e' and x[1] != y[1] and not ({x[1], y[1]} & REFUSALS):
+                    raise Violation(f'{case["law"]}|lookup-error', f'ds[{k!r}]: lhs raises {x[1]}, rhs raises {y[1]}')
     except Violation as v:
         raise Violation(v.sig, f'law {case["law"]}\nlhs: {progs.show(case["lhs"])}\nrhs: {progs.show(case["rhs"])}\n'
                         + v.detail)
